@@ -477,6 +477,52 @@ func (h *hist) step(line string) (out string) {
 			return "ok " + strconv.Itoa(len(gs))
 		case k == 'e':
 			switch {
+			case strings.HasPrefix(op, "any"):
+				// the generic constructor Field.Element(interface{})
+				f := h.field(idx)
+				var v interface{}
+				items := []string{}
+				if a0 != "-" && a0 != "" {
+					items = strings.Split(a0, ".")
+				}
+				switch op {
+				case "anyu":
+					v = u(a0)
+				case "anyi":
+					v = i64(a0)
+				case "anystr":
+					v = unhex(a0)
+				case "anysl":
+					sl := make([]uint, len(items))
+					for i, t := range items {
+						sl[i] = u(t)
+					}
+					v = sl
+				case "anyisl":
+					sl := make([]int, len(items))
+					for i, t := range items {
+						sl[i] = i64(t)
+					}
+					v = sl
+				case "anyf64":
+					v = 1.5
+				case "anyi32":
+					v = int32(3)
+				case "anyu8":
+					v = uint8(3)
+				case "anynil":
+					v = nil
+				case "anyelem":
+					v = f.One()
+				default:
+					return "bad-op"
+				}
+				e, err := f.Element(v)
+				if err != nil {
+					return "err " + kindOf(err)
+				}
+				h.setE(dst, e)
+				return "ok " + h.showE(e)
 			case contains([]string{"u", "s", "enc", "str", "zero", "one", "gen", "foreign"}, op):
 				f := h.field(idx)
 				var e ff.Element
